@@ -544,8 +544,91 @@ def unit_groups(unit):
     return agg
 
 
+def unit_long(unit):
+    """size thresholds: long vectors (lengths around 16/32/64/128) with None at designated position patterns - far inside, only
+    at the very end, every k-th - for reductions, isna/dropna/fillna, arithmetic and comparison"""
+    from serif import Vector
+    _, kind = unit
+    agg = Agg()
+    base4 = BASE[kind][0]
+    fns = {"bool": ["sum", "mean", "min", "max", "any", "all", "stdev", "stdev-population"], "int": ["sum", "mean", "min", "max", "any", "all", "stdev", "stdev-population"],
+           "float": ["sum", "mean", "min", "max", "any", "all", "stdev", "stdev-population"], "complex": ["sum", "mean"], "str": ["min", "max"], "date": ["min", "max"]}[kind]
+    for n in (15, 16, 17, 32, 33, 64, 65, 129):
+        pats = {"none": set(), "last": {n - 1}, "first": {0}, "far-inside": {n - 3}, "every-5th": set(range(4, n, 5)), "second-half": set(range(n // 2, n)),
+                "all-but-last": set(range(n - 1))}
+        for pname, npos in pats.items():
+            xs = [None if i in npos else base4[i % 4] for i in range(n)]
+            clean = [x for x in xs if x is not None]
+            case = {"family": "long vectors", "kind": kind, "len": n, "none_pattern": pname}
+            agg.states += 1; agg.nontrivial += 1
+            try:
+                v = Vector(list(xs))
+            except Exception as e:
+                agg.violation(V("long.build", "raises-" + type(e).__name__, case))
+                continue
+            for fn in fns:
+                if fn == "stdev-population" and len(clean) < 2:
+                    continue
+                want = ref_reduce(fn, clean)
+                agg.evals += 1; agg.transitions += 1; agg.compared += 1
+                try:
+                    got = v.stdev(population=True) if fn == "stdev-population" else getattr(v, fn)()
+                except Exception as e:
+                    agg.violation(V(f"reduce.{fn}.long", "raises-" + type(e).__name__, dict(case, reduction=fn), want, repr(e)[:80]))
+                    continue
+                if not red_close(got, want):
+                    agg.violation(V(f"reduce.{fn}.long", "none-not-skipped" if npos else "wrong-value", dict(case, reduction=fn), want, got))
+                else:
+                    agg.outcomes["reduce-agree"] += 1
+            # isna / dropna / fillna
+            fill = FILL[kind][0][1]
+            agg.evals += 3; agg.transitions += 3; agg.compared += 3
+            try:
+                gi, gd, gf = vec_list(v.isna()), vec_list(v.dropna()), v.fillna(fill)
+            except Exception as e:
+                agg.violation(V("na-ops.long", "raises-" + type(e).__name__, case, None, repr(e)[:80]))
+                continue
+            if gi != [x is None for x in xs]:
+                agg.violation(V("isna.long", "wrong-mask", case))
+            elif gd is None or not same_list(gd, clean):
+                agg.violation(V("dropna.long", "does-not-match-isna", case))
+            elif not same_list(vec_list(gf), [fill if x is None else x for x in xs]):
+                agg.violation(V("fillna.long", "not-exactly-the-isna-positions", case))
+            elif schema_of(gf) is None or schema_of(gf)[1] is not False:
+                agg.violation(V("fillna.long", "result-reports-nullable", case, False, schema_of(gf)))
+            else:
+                agg.outcomes["fillna-agree"] += 1; agg.outcomes["dropna-agree"] += 1
+            # arithmetic / comparison with itself shifted and with a scalar
+            other = [base4[(i + 1) % 4] for i in range(n)]
+            for opn, op in list(OPS.items())[:3] + list(CMP.items())[:3]:
+                is_cmp = opn in CMP
+                for form, right in (("vv", other), ("vs", other[0])):
+                    ys = right if form == "vv" else [right] * n
+                    want = py_prop(op, xs, ys) if not is_cmp else None
+                    try:
+                        want = [False if (x is None or y is None) else bool(op(x, y)) for x, y in zip(xs, ys)] if is_cmp else \
+                               [None if (x is None or y is None) else op(x, y) for x, y in zip(xs, ys)]
+                    except Exception:
+                        agg.skipped["python-raises"] += 1
+                        continue
+                    agg.evals += 1; agg.transitions += 1; agg.compared += 1
+                    try:
+                        res = op(Vector(list(xs)), Vector(list(right)) if form == "vv" else right)
+                        got = vec_list(res)
+                    except Exception as e:
+                        agg.violation(V(f"{'compare' if is_cmp else 'arith'}.{opn}.long", "raises-" + type(e).__name__, dict(case, form=form), None, repr(e)[:80]))
+                        continue
+                    if got is None or not same_list(got, want):
+                        agg.violation(V(f"{'compare' if is_cmp else 'arith'}.{opn}.long", "none-not-propagated" if not is_cmp else "none-does-not-compare-false", dict(case, form=form),
+                                        want[:12], (got or [])[:12]))
+                    else:
+                        agg.outcomes["compare-agree" if is_cmp else "arith-agree"] += 1
+    agg.sample({"family": "long vectors", "kind": kind})
+    return agg
+
+
 def run_unit(unit):
-    return {"arith": unit_arith, "cmp": unit_compare, "red": unit_reduce, "na": unit_na, "grp": unit_groups, "redh": unit_reduce_hist}[unit[0]](unit)
+    return {"arith": unit_arith, "cmp": unit_compare, "red": unit_reduce, "na": unit_na, "grp": unit_groups, "redh": unit_reduce_hist, "long": unit_long}[unit[0]](unit)
 
 
 def check(ctx):
@@ -555,6 +638,7 @@ def check(ctx):
     units += [("red", k, N + 1) for k in BASE]
     units += [("na", k, N + 1) for k in list(BASE) + ["object"]]
     units += [("grp", "str", n) for n in range(1, 4)]
+    units += [("long", k) for k in BASE]
     units += [("redh", k, pol) for k in ("int", "float", "str", "date") for pol in ("fresh", "recycle")]
     agg = core.merge_all(core.pmap(run_unit, units))
     agg.notes["bound"] = f"arith/compare operands len<={N}, reductions and na-ops len<={N+1}, every None subset"
